@@ -13,7 +13,7 @@ import glob
 import shutil
 import tempfile
 
-from .. import common
+from .. import budget, common
 
 common.setup_env()
 import spydrnet as sdn  # noqa: E402
@@ -222,7 +222,12 @@ def run_case(ctx, i, rng):
                 fh.write(text)
             what = "generated %s" % feats
             try:
-                n = sdn.parse(src)
+                # (generated texts are small: a few thousand function entries; two million without returning is a reader that loops)
+                with budget.StepBudget(2_000_000):
+                    n = sdn.parse(src)
+            except budget.StepBudgetExceeded:
+                ctx.violation("reader-does-not-terminate", "more than 2,000,000 function entries without returning | %s" % what, {"text": text[:5000]})
+                return
             except Exception as ex:  # noqa: BLE001
                 fr = probes.innermost_frame(ex) or ""
                 ctx.violation("reader-rejects-supported-text:%s:%s" % (type(ex).__name__, fr.split(":")[-1]),
@@ -249,7 +254,12 @@ def run_case(ctx, i, rng):
         f = os.path.join(d, "o.eblif")
         try:
             sdn.compose(n, f, **opts)
-            n2 = sdn.parse(f)
+            with budget.StepBudget(20_000_000 if design is None else 2_000_000):
+                n2 = sdn.parse(f)
+        except budget.StepBudgetExceeded:
+            ctx.violation("roundtrip-reader-does-not-terminate", "re-reading the written file took more function entries than any file of this size needs "
+                          "| %s opts=%s" % (what, opts), {"written": open(f).read()[:5000]})
+            return
         except Exception as ex:  # noqa: BLE001
             fr = probes.innermost_frame(ex) or ""
             if isinstance(ex, ValueError) and "naming conflict" in str(ex) and not opts["write_eblif_cname"]:
